@@ -1243,6 +1243,17 @@ pub fn execute_c16(scn_v: &Value) -> RunReport {
                 break;
             }
             let Out::Ok(s) = &out else {
+                // a refused issuance (an implementation may refuse where another one panics, e.g.
+                // on an exhausted queue) may have taken salts for the disclosures it built before
+                // it failed; what is left must still be the rest of the queue, in order
+                let after = queue_now();
+                let before_len = scn.queue.len().saturating_sub(consumed);
+                let taken = before_len.saturating_sub(after.len());
+                let want = &scn.queue[(consumed + taken).min(scn.queue.len())..];
+                if pass == 0 && after.as_slice() != want {
+                    cx.violate("C16", "queue-conservation", "c16:queue_disturbed_by_failed_issuance".into(), BTreeMap::new(), json!({"issuance": j, "consumed_before": consumed, "taken_by_failed_call": taken, "queue_head_now": after.iter().take(4).collect::<Vec<_>>(), "expected_head": want.iter().take(4).collect::<Vec<_>>()}), scenario.clone());
+                }
+                consumed += taken;
                 outs.push(None);
                 continue;
             };
